@@ -3,6 +3,7 @@ package godi
 import (
 	"context"
 	"fmt"
+	"maps"
 	"reflect"
 	"strconv"
 	"sync"
@@ -268,8 +269,8 @@ func (sc *collection) doBuild(ctx context.Context) (Provider, error) {
 
 	p := &provider{
 		id:                          "p" + strconv.FormatUint(atomic.AddUint64(&providerIDCounter, 1), 36),
-		services:                    sc.services,
-		groups:                      sc.groups,
+		services:                    maps.Clone(sc.services), // snapshot: later changes to the collection do not affect the provider
+		groups:                      cloneGroups(sc.groups),
 		graph:                       g,
 		analyzer:                    sc.analyzer, // Share analyzer from collection
 		singletonKeys:               make([]instanceKey, 0, len(allDescriptors)),
@@ -888,6 +889,16 @@ func (c *collection) validateLifetimes() error {
 	}
 
 	return nil
+}
+
+// cloneGroups copies the group registry, including the member slices.
+func cloneGroups(groups map[GroupKey][]*Descriptor) map[GroupKey][]*Descriptor {
+	cloned := make(map[GroupKey][]*Descriptor, len(groups))
+	for key, members := range groups {
+		cloned[key] = append([]*Descriptor(nil), members...)
+	}
+
+	return cloned
 }
 
 // validateDependencies ensures that every required dependency of every registered
